@@ -108,6 +108,10 @@ class Derivative(Contract):
         names_ok = (isinstance(fa["names"], NamesV) and (fa["names"].term is cur.names or z3.is_true(z3.simplify(fa["names"].term == cur.names))))
         ex.oblige(f"{L}.names_are_those_of_the_polynomial", z3.BoolVal(bool(names_ok)) if isinstance(names_ok, bool) else names_ok, "post",
                   note="the derivative keeps the indeterminate tuple of the operand")
+        # the products exponent*coefficient are computed in numpy's promoted type (A1); handing the constructor an explicit dtype
+        # would cast them - possibly back into a type that cannot hold them.  The constructor takes the common type by itself.
+        ex.oblige(f"{L}.no_cast_of_the_computed_coefficients", z3.BoolVal(fa["dtype"] is None), "post",
+                  note="C06/C12: exponent*coefficient must not be cast into another (possibly narrower) dtype")
         Cs = V.as_seq(ex, C) if not isinstance(C, list) else None
         live = lambda t: expo(cur.row(t), idx) > 0
         if isinstance(C, list):
